@@ -93,7 +93,15 @@ def make_register(cfg):
         fields = mk(struct)
         if not isinstance(fields, dict):
             fields = {"f": fields}
-        cls = type("AnnReg", (csr.Register,), {"__annotations__": dict(fields)}, access=cfg["racc"])
+        ann = dict(fields)
+        if len(cfg["leaves"]) % 2:           # other annotations in between must be ignored, order kept
+            ann = {}
+            for i, (k, v) in enumerate(fields.items()):
+                if i == 1:
+                    ann["not_a_field"] = int
+                ann[k] = v
+            ann["also_not"] = "str"
+        cls = type("AnnReg", (csr.Register,), {"__annotations__": ann}, access=cfg["racc"])
         return cls()
     return csr.Register(mk(struct), access=cfg["racc"])
 
